@@ -33,7 +33,7 @@ and “Parameters”: Pass State, Task State, and Parallel State.
 import sys
 assert sys.version_info >= (3, 0)  # Bomb out if not running Python3
 
-import hashlib, random, re, uuid
+import copy, hashlib, random, re, uuid
 
 """
 ASL paths use JSONPath.
@@ -215,7 +215,10 @@ def apply_resultpath(input, result, path="$"):
     # Regex to split the reference paths. The apostrophes of bracket-quoted
     # notation e.g. $['a'] delimit the name and are not part of it.
     matches = re.findall(r"[^$.[\]']+", path)
-    return update_path(input, matches, result)
+    # Place a copy of the result: when the result is the input itself (or a
+    # part of it that contains the target) placing the same object would make
+    # the output a cyclic structure that cannot be serialised.
+    return update_path(input, matches, copy.deepcopy(result))
 
 def evaluate_payload_template(input, context, template):
     """
